@@ -57,7 +57,49 @@ def fingerprint(res):
     return fields
 
 
-for idx, (iso, opts) in enumerate(batch):
+def summarise(ev):
+    first_write = next((i for i, e in enumerate(ev) if e.startswith("w")), None)
+    return {"n_events": len(ev), "reads_before_first_write": first_write if first_write is not None else len(ev),
+            "writes": sorted(set(e for e in ev if e.startswith("w"))), "n_writes": sum(1 for e in ev if e.startswith("w")), "trace_head": ev[:6]}
+
+
+for idx, entry in enumerate(batch):
+    if entry[0] == "NOTRADE":
+        # the multi-country driver itself: one options dictionary shared by all countries of the list
+        import contextlib, io
+        from src.scenarios.run_model_no_trade import ScenarioRunnerNoTrade
+        _, opts, countries = entry
+        start = len(trace)
+        err, res = None, {}
+        try:
+            with contextlib.redirect_stdout(io.StringIO()):
+                out_ = ScenarioRunnerNoTrade().run_model_no_trade(
+                    title="c14nt_%d_%d" % (os.getpid(), idx), create_pptx_with_all_countries=False, show_country_figures=False,
+                    show_map_figures=False, add_map_slide_to_pptx=False, scenario_option=opts, countries_list=countries,
+                    return_results=True)
+            res = out_[3]
+            agg = [float(out_[1]), float(out_[2])]
+        except BaseException as e:
+            if isinstance(e, KeyboardInterrupt):
+                raise
+            err = "%s: %s" % (type(e).__name__, str(e)[:200])
+            agg = None
+        for name, r in res.items():
+            d = {"iso": "NOTRADE:" + name, "opts": {"countries": countries}, "error": None, "fingerprint": fingerprint(r)}
+            d.update(summarise([]))
+            d["reads_before_first_write"] = 0
+            print("RUN " + json.dumps(d))
+        d = {"iso": "NOTRADE-AGG", "opts": {"countries": countries}, "error": err, "fingerprint": {"net_pop": repr(agg)} if agg else None}
+        d.update(summarise(trace[start:]))
+        d["reads_before_first_write"] = 0
+        print("RUN " + json.dumps(d))
+        sys.stdout.flush()
+        for f in os.listdir("results"):
+            if f.startswith("c14nt_"):
+                with contextlib.suppress(OSError):
+                    os.remove(os.path.join("results", f))
+        continue
+    iso, opts = entry
     start = len(trace)
     run = pipeline.run_scenario(iso, opts, title="c14_%d_%d" % (os.getpid(), idx))
     ev = trace[start:]
